@@ -1,8 +1,9 @@
 import CollectionsC.Proofs.HashTable
 import CollectionsC.Proofs.HashSet
+import CollectionsC.Proofs.HashTableDerived
 /-! C14 for the hash containers: no operation of the model ever touches the C library allocator
 counter — every allocation and release goes through the configured triple. -/
-set_option maxHeartbeats 800000
+set_option maxHeartbeats 1600000
 namespace CC.HT
 open CC
 
@@ -65,5 +66,287 @@ theorem removeAll_libc (t : HashTable) (m : Mem) : (t.removeAll m).2.libc = m.li
 
 theorem destroy_libc (t : HashTable) (m : Mem) : (t.destroy m).libc = m.libc := by
   unfold destroy; simp
+
+end CC.HashTable
+
+namespace CC.HT
+open CC
+
+theorem alloc_nrefused (m : Mem) : m.alloc.2.nrefused = m.nrefused + (if m.alloc.1 then 0 else 1) := by
+  unfold Mem.alloc; split <;> simp
+@[simp] theorem free_nrefused (m : Mem) : m.free.nrefused = m.nrefused := by
+  unfold Mem.free; split <;> rfl
+@[simp] theorem check_nrefused (m : Mem) (b : Bool) : (m.check b).nrefused = m.nrefused := by
+  cases b <;> simp [Mem.check]
+@[simp] theorem freeN_nrefused (m : Mem) (n : Nat) : (freeN m n).nrefused = m.nrefused := by
+  induction n generalizing m with
+  | zero => rfl
+  | succ n ih => simp [freeN, ih]
+@[simp] theorem free_sched (m : Mem) : m.free.sched = m.sched := by
+  unfold Mem.free; split <;> rfl
+@[simp] theorem freeN_sched (m : Mem) (n : Nat) : (freeN m n).sched = m.sched := by
+  induction n generalizing m with
+  | zero => rfl
+  | succ n ih => simp [freeN, ih]
+/-- the allocator's answer and the rest of the schedule depend on the schedule only -/
+theorem alloc_congr (m m' : Mem) (h : m.sched = m'.sched) :
+    m.alloc.1 = m'.alloc.1 ∧ m.alloc.2.sched = m'.alloc.2.sched := by
+  unfold Mem.alloc; rw [h]; split <;> simp
+
+end CC.HT
+
+namespace CC.DArr
+open CC CC.HT
+
+theorem new_libc (cap : Nat) (m : Mem) : (DArr.new cap m).2.2.libc = m.libc := by
+  unfold DArr.new; split
+  · rfl
+  · simp only; split
+    · simp
+    · split <;> simp
+theorem expand_libc (c : HCfg) (a : DArr) (m : Mem) : (a.expand c m).2.2.libc = m.libc := by
+  unfold expand; split
+  · rfl
+  · simp only; split <;> simp
+theorem add_libc (c : HCfg) (a : DArr) (x : Nat) (m : Mem) : (a.add c x m).2.2.libc = m.libc := by
+  unfold add; simp only
+  split
+  · split
+    · exact expand_libc c a m
+    · simp [expand_libc]
+  · split <;> simp
+theorem addAll_libc (c : HCfg) (xs : List Nat) (a : DArr) (m : Mem) : (addAll c xs a m).2.2.libc = m.libc := by
+  induction xs generalizing a m with
+  | nil => rfl
+  | cons x xs ih =>
+    unfold addAll; simp only
+    split
+    · exact add_libc c a x m
+    · rw [ih, add_libc]
+theorem destroy_libc (a : DArr) (m : Mem) : (a.destroy m).libc = m.libc := by simp [destroy]
+
+end CC.DArr
+
+namespace CC.HashTable
+open CC CC.HT CC.Spec
+open CC.Spec.Map (Op Out)
+
+theorem collect_libc (c : HCfg) (t : HashTable) (xs : List Nat) (m : Mem) : (t.collect c xs m).2.2.libc = m.libc := by
+  unfold collect; simp only
+  cases h : (DArr.new t.size m).2.1 with
+  | none => simp only; exact DArr.new_libc t.size m
+  | some a =>
+    simp only
+    split
+    · rw [DArr.destroy_libc, DArr.addAll_libc]; simp [DArr.new_libc]
+    · rw [DArr.addAll_libc]; simp [DArr.new_libc]
+
+theorem getKeys_libc (c : HCfg) (t : HashTable) (m : Mem) : (t.getKeys c m).2.2.libc = m.libc := collect_libc c t _ m
+theorem getValues_libc (c : HCfg) (t : HashTable) (m : Mem) : (t.getValues c m).2.2.libc = m.libc := collect_libc c t _ m
+
+theorem get_libc (c : HCfg) (t : HashTable) (k : Key) (m : Mem) : (t.get c k m).2.2.libc = m.libc := by
+  unfold get; simp only; split <;> simp
+
+theorem step_libc (c : HCfg) (t : HashTable) (op : Op) (m : Mem) : (t.step c op m).2.2.libc = m.libc := by
+  cases op with
+  | add k v => exact add_libc c t k v m
+  | get k => exact get_libc c t k m
+  | containsKey k => simp only [step, containsKey]; exact get_libc c t k m
+  | remove k => exact remove_libc c t k m
+  | removeAll => exact removeAll_libc t m
+
+theorem run_libc (c : HCfg) (ops : List Op) (t : HashTable) (m : Mem) : (t.run c ops m).2.2.2.libc = m.libc := by
+  induction ops generalizing t m with
+  | nil => rfl
+  | cons op ops ih => simp only [run]; rw [ih, step_libc]
+
+theorem iter_libc (t : HashTable) (it : HIter) (m : Mem) :
+    (t.iterInit m).2.libc = m.libc ∧ (t.iterNext it m).2.2.2.libc = m.libc := by
+  constructor
+  · unfold iterInit; simp only; split <;> simp
+  · unfold iterNext
+    split
+    · rfl
+    · split
+      · simp
+      · split
+        · rfl
+        · simp only; split <;> simp
+
+theorem iterRemove_libc (c : HCfg) (t : HashTable) (it : HIter) (m : Mem) : (t.iterRemove c it m).2.2.2.libc = m.libc := by
+  unfold iterRemove; split
+  · simp
+  · exact remove_libc c t _ m
+
+/-! ### refusals -/
+
+theorem resize_nrefused (c : HCfg) (t : HashTable) (n : Nat) (m : Mem) :
+    ((t.resize c n m).1 = .errAlloc ∧ (t.resize c n m).2.2.nrefused = m.nrefused + 1) ∨
+    ((t.resize c n m).1 ≠ .errAlloc ∧ (t.resize c n m).2.2.nrefused = m.nrefused) := by
+  unfold resize
+  split
+  · right; simp
+  · simp only
+    cases ha : m.alloc.1 with
+    | false => left; simp [alloc_nrefused, ha]
+    | true => right; simp [alloc_nrefused, ha]
+
+theorem growLoop_nrefused (c : HCfg) (fuel : Nat) (t : HashTable) (m : Mem) :
+    ((growLoop c fuel t m).1 = .errAlloc ∧ (growLoop c fuel t m).2.2.nrefused = m.nrefused + 1) ∨
+    ((growLoop c fuel t m).1 ≠ .errAlloc ∧ (growLoop c fuel t m).2.2.nrefused = m.nrefused) := by
+  induction fuel generalizing t m with
+  | zero => right; simp [growLoop]
+  | succ fuel ih =>
+    unfold growLoop
+    split
+    · simp only
+      rcases resize_nrefused c t (t.capacity <<< 1) m with ⟨a, b⟩ | ⟨a, b⟩
+      · left; simp [a, b]
+      · split
+        · right; exact ⟨a, b⟩
+        · rcases ih (t.resize c (t.capacity <<< 1) m).2.1 (t.resize c (t.capacity <<< 1) m).2.2 with ⟨x, y⟩ | ⟨x, y⟩
+          · left; exact ⟨x, by rw [y, b]⟩
+          · right; exact ⟨x, by rw [y, b]⟩
+    · right; simp
+
+theorem add_nrefused (c : HCfg) (t : HashTable) (k : Key) (v : Nat) (m : Mem) :
+    ((t.add c k v m).1 = .errAlloc ∧ (t.add c k v m).2.2.nrefused = m.nrefused + 1) ∨
+    ((t.add c k v m).1 ≠ .errAlloc ∧ (t.add c k v m).2.2.nrefused = m.nrefused) := by
+  unfold add; simp only
+  rcases growLoop_nrefused c 64 t m with ⟨a, b⟩ | ⟨a, b⟩
+  · left; simp [a, b]
+  · split
+    · right; exact ⟨a, b⟩
+    · split
+      · right; simp [b]
+      · rename_i hr
+        generalize hm1 : ((growLoop c 64 t m).2.2.check (decide ((growLoop c 64 t m).2.1.index (keyHash c k) < (growLoop c 64 t m).2.1.buckets.length))) = m1
+        have hm1r : m1.nrefused = m.nrefused := by rw [← hm1]; simp [b]
+        cases ha : m1.alloc.1 with
+        | false => left; simp [alloc_nrefused, ha, hm1r]
+        | true => right; simp [alloc_nrefused, ha, hm1r]
+
+theorem step_nrefused (c : HCfg) (t : HashTable) (op : Op) (m : Mem) :
+    ((t.step c op m).1.st = some .errAlloc ∧ (t.step c op m).2.2.nrefused = m.nrefused + 1) ∨
+    ((t.step c op m).1.st ≠ some .errAlloc ∧ (t.step c op m).2.2.nrefused = m.nrefused) := by
+  cases op with
+  | add k v =>
+    rcases add_nrefused c t k v m with ⟨a, b⟩ | ⟨a, b⟩
+    · left; exact ⟨by simp [step, a], b⟩
+    · right; exact ⟨by simp [step, a], b⟩
+  | get k => right; simp only [step, get]; split <;> simp
+  | containsKey k => right; simp only [step, containsKey, get]; split <;> simp
+  | remove k => right; simp only [step, remove]; split <;> simp
+  | removeAll => right; simp only [step]; rw [removeAll_mem]; simp
+
+end CC.HashTable
+
+namespace CC.HashTable
+open CC CC.HT CC.Spec
+open CC.Spec.Map (Op Out)
+
+/-! ### allocator independence: results depend on the ledger only through the schedule -/
+
+theorem resize_congr (c : HCfg) (t : HashTable) (n : Nat) (m m' : Mem) (h : m.sched = m'.sched) :
+    (t.resize c n m).1 = (t.resize c n m').1 ∧ (t.resize c n m).2.1 = (t.resize c n m').2.1 ∧
+    (t.resize c n m).2.2.sched = (t.resize c n m').2.2.sched := by
+  obtain ⟨a1, a2⟩ := alloc_congr m m' h
+  unfold resize
+  split
+  · exact ⟨rfl, rfl, h⟩
+  · simp only; rw [a1]
+    split
+    · exact ⟨rfl, rfl, a2⟩
+    · exact ⟨rfl, rfl, by simp [a2]⟩
+
+theorem growLoop_congr (c : HCfg) (fuel : Nat) (t : HashTable) (m m' : Mem) (h : m.sched = m'.sched) :
+    (growLoop c fuel t m).1 = (growLoop c fuel t m').1 ∧ (growLoop c fuel t m).2.1 = (growLoop c fuel t m').2.1 ∧
+    (growLoop c fuel t m).2.2.sched = (growLoop c fuel t m').2.2.sched := by
+  induction fuel generalizing t m m' with
+  | zero => exact ⟨rfl, rfl, by simp [growLoop, h]⟩
+  | succ fuel ih =>
+    obtain ⟨r1, r2, r3⟩ := resize_congr c t (t.capacity <<< 1) m m' h
+    unfold growLoop
+    split
+    · simp only; rw [r1]
+      split
+      · exact ⟨r1, r2, r3⟩
+      · rw [r2]; exact ih _ _ _ r3
+    · exact ⟨rfl, rfl, h⟩
+
+theorem add_congr (c : HCfg) (t : HashTable) (k : Key) (v : Nat) (m m' : Mem) (h : m.sched = m'.sched) :
+    (t.add c k v m).1 = (t.add c k v m').1 ∧ (t.add c k v m).2.1 = (t.add c k v m').2.1 ∧
+    (t.add c k v m).2.2.sched = (t.add c k v m').2.2.sched := by
+  obtain ⟨g1, g2, g3⟩ := growLoop_congr c 64 t m m' h
+  unfold add; simp only
+  rw [g1, g2]
+  split
+  · exact ⟨g1, g2, g3⟩
+  · split
+    · exact ⟨rfl, rfl, by simp [g3]⟩
+    · obtain ⟨a1, a2⟩ := alloc_congr
+        ((growLoop c 64 t m).2.2.check (decide ((growLoop c 64 t m').2.1.index (keyHash c k) < (growLoop c 64 t m').2.1.buckets.length)))
+        ((growLoop c 64 t m').2.2.check (decide ((growLoop c 64 t m').2.1.index (keyHash c k) < (growLoop c 64 t m').2.1.buckets.length)))
+        (by simp [g3])
+      rw [a1]
+      split
+      · exact ⟨rfl, rfl, a2⟩
+      · exact ⟨rfl, rfl, a2⟩
+
+theorem new_congr (c : HCfg) (cap : Nat) (m m' : Mem) (h : m.sched = m'.sched) :
+    (HashTable.new c cap m).1 = (HashTable.new c cap m').1 ∧ (HashTable.new c cap m).2.1 = (HashTable.new c cap m').2.1 ∧
+    (HashTable.new c cap m).2.2.sched = (HashTable.new c cap m').2.2.sched := by
+  obtain ⟨a1, a2⟩ := alloc_congr m m' h
+  obtain ⟨b1, b2⟩ := alloc_congr m.alloc.2 m'.alloc.2 a2
+  unfold HashTable.new; simp only
+  rw [a1]
+  split
+  · exact ⟨rfl, rfl, a2⟩
+  · rw [b1]
+    split
+    · exact ⟨rfl, rfl, by simp [b2]⟩
+    · exact ⟨rfl, rfl, b2⟩
+
+theorem get_congr (c : HCfg) (t : HashTable) (k : Key) (m m' : Mem) (h : m.sched = m'.sched) :
+    (t.get c k m).1 = (t.get c k m').1 ∧ (t.get c k m).2.1 = (t.get c k m').2.1 ∧
+    (t.get c k m).2.2.sched = (t.get c k m').2.2.sched := by
+  simp only [get]; cases chainFind (t.bucket (t.index (keyHash c k))) k <;> simp [h]
+
+theorem step_congr (c : HCfg) (t : HashTable) (op : Op) (m m' : Mem) (h : m.sched = m'.sched) :
+    (t.step c op m).1 = (t.step c op m').1 ∧ (t.step c op m).2.1 = (t.step c op m').2.1 ∧
+    (t.step c op m).2.2.sched = (t.step c op m').2.2.sched := by
+  cases op with
+  | add k v =>
+    obtain ⟨a1, a2, a3⟩ := add_congr c t k v m m' h
+    simp only [step]; rw [a1, a2]; exact ⟨rfl, rfl, a3⟩
+  | get k => simp only [step, get]; cases chainFind (t.bucket (t.index (keyHash c k))) k <;> simp [h]
+  | containsKey k =>
+    obtain ⟨g1, g2, g3⟩ := get_congr c t k m m' h
+    simp only [step, containsKey, g1]; exact ⟨rfl, trivial, g3⟩
+  | remove k => simp only [step, remove]; cases chainRemove (t.bucket (t.index (keyHash c k))) k <;> simp [h]
+  | removeAll =>
+    simp only [step]
+    refine ⟨trivial, ?_, by rw [removeAll_mem, removeAll_mem]; simp [h]⟩
+    cases hr : (t.removeAll m).1 with | mk a b c' d =>
+    cases hr' : (t.removeAll m').1 with | mk a' b' c'' d' =>
+    have e1 := removeAll_capacity t m; have e1' := removeAll_capacity t m'
+    have e2 := removeAll_threshold t m; have e2' := removeAll_threshold t m'
+    have e3 := removeAll_buckets t m; have e3' := removeAll_buckets t m'
+    have e4 := removeAll_size t m; have e4' := removeAll_size t m'
+    rw [hr] at e1 e2 e3 e4; rw [hr'] at e1' e2' e3' e4'
+    simp only at e1 e2 e3 e4 e1' e2' e3' e4'
+    rw [e1, e2, e3, e4, e1', e2', e3', e4']
+
+theorem run_congr (c : HCfg) (ops : List Op) (t : HashTable) (m m' : Mem) (h : m.sched = m'.sched) :
+    (t.run c ops m).1 = (t.run c ops m').1 ∧ (t.run c ops m).2.1 = (t.run c ops m').2.1 ∧
+    (t.run c ops m).2.2.1 = (t.run c ops m').2.2.1 := by
+  induction ops generalizing t m m' with
+  | nil => exact ⟨rfl, rfl, rfl⟩
+  | cons op ops ih =>
+    obtain ⟨s1, s2, s3⟩ := step_congr c t op m m' h
+    simp only [run]
+    rw [s1, s2]
+    obtain ⟨i1, i2, i3⟩ := ih (t.step c op m').2.1 (t.step c op m).2.2 (t.step c op m').2.2 s3
+    rw [i1, i2, i3]; exact ⟨rfl, rfl, rfl⟩
 
 end CC.HashTable
